@@ -213,7 +213,8 @@ _prio("C05", "Saturation: from any state with actual[p] <= strategic[p] (shares 
 _prio("C06", "Progress, reduced to solver-decidable obligations plus the ranking argument of DESIGN 7 C06: (P0) constructor guarantees every share >= 1 and shares sum to H; (P1) the discipline blocks on feedback only while "
       "something is in flight (loop/main/run harnesses); (P2) nothing in flight + data somewhere => an item is delivered in one round without a release; (P3) a round proceeds only if every uncrowded priority got >= 1; "
       "(P4) a sole active priority reaches H in one round.",
-      [_G_ROUND, _G_ROUND2, _G_NEW, _G_LOOP1, _G_RUN, _v2p("^VerifC01_step_calcTactic$", dict(n=[1, 2, 3]), dict(n=[1, 2, 3, 4]))])
+      [_G_ROUND, _G_ROUND2, _G_NEW, _G_LOOP1, _G_RUN, _v2p("^VerifC01_step_calcTactic$", dict(n=[1, 2, 3]), dict(n=[1, 2, 3, 4])),
+       _v2p("^VerifC01_step_feedback$", dict(n=[1, 2], J=[2]), dict(n=[1, 2, 3], J=[3]))])
 _prio("C07", "Termination exactly when drained and released: real loop()/main() from arbitrary between-rounds states with every input open / closed-with-backlog / drained: output and err are closed only with nothing in flight "
       "and (normal mode) all inputs closed, empty and marked drained; Drained is set only on an observed close; promptness (returns after exactly g releases, no idle sleep); no error value in normal mode.",
       [_G_LOOP1, _G_PROMPT, _v2p("^VerifC01_step_io$", dict(n=[1, 2, 3], J=[2]), dict(n=[1, 2, 3, 4], J=[3])), _G_RUN, _G_SIMPLE])
@@ -268,7 +269,7 @@ _V1_C17 = [_V1_C17RUN, _v1p("^VerifC17_step_", dict(n=[1, 2, 3]), dict(n=[1, 2, 
 PROPS["C01"]["groups"] += [_V1_STEP_A, _V1_STEP_B, _V1_PRIOR, _V1_MAIN, _V1_NEW, _V1_SIMPLE] + _V1_C17
 PROPS["C02"]["groups"] += [_V1_STEP_A, _V1_STEP_B, _V1_PRIOR, _V1_MAIN, _V1_SIMPLE] + _V1_C17
 PROPS["C05"]["groups"] += [_V1_ROUND, _V1_SAT3, _V1_NEW]
-PROPS["C06"]["groups"] += [_V1_ROUND, _v1p("^VerifC06_progress_two_rounds$", dict(n=[2, 3], Hmax=[3]), dict(n=[2, 3, 4], Hmax=[4])), _V1_MAIN, _V1_Z6, _v1p("^VerifC01_step_calcTactic$", dict(n=[1, 2, 3]), dict(n=[1, 2, 3, 4]))]
+PROPS["C06"]["groups"] += [_V1_ROUND, _v1p("^VerifC06_progress_two_rounds$", dict(n=[2, 3], Hmax=[3]), dict(n=[2, 3, 4], Hmax=[4])), _V1_MAIN, _V1_Z6, _v1p("^VerifC01_step_calcTactic$", dict(n=[1, 2, 3]), dict(n=[1, 2, 3, 4])), _v1p("^VerifC01_step_feedback$", dict(n=[1, 2], J=[2]), dict(n=[1, 2, 3], J=[3]))]
 PROPS["C07"]["groups"] += [_V1_MAIN, _V1_PROMPT, _V1_Z7, _V1_SIMPLE, _V1_C17RUN, _v1p("^VerifC01_step_io$", dict(n=[1, 2, 3], J=[2]), dict(n=[1, 2, 3, 4], J=[3]))]
 PROPS["C15"]["groups"] += [_V1_STEP_A, _V1_STEP_B, _V1_MAIN, _V1_NEW, _V1_RFAULT, _V1_RUNFAULT, _V1_SIMPLE, _V1_C17[1]]  # the divisions made by AddInput / RemoveInput obey the argument contract too
 PROPS["C16"]["groups"] += [_V1_SIMPLE]
